@@ -189,7 +189,7 @@ func ruleC06During(p *Prog, r *Res) {
 
 	// converter completion: where it raises Uncertain it records the same streams as updated
 	if jf := p.Fns["manager.Manager.convertStreamJob"]; jf != nil {
-		for _, comp := range ctx.postedIn(jf) {
+		for _, comp := range ctx.completionsIn(jf) {
 			info := comp.Pkg.TypesInfo
 			fl := p.Flow(comp)
 			unc := p.Field("query", "TagDetails", "Uncertain")
@@ -225,7 +225,7 @@ func ruleC06During(p *Prog, r *Res) {
 
 	// tagging completion: re-apply after install
 	if jf := p.Fns["manager.Manager.updateTagJob"]; jf != nil {
-		for _, comp := range ctx.postedIn(jf) {
+		for _, comp := range ctx.completionsIn(jf) {
 			info := comp.Pkg.TypesInfo
 			fl := p.Flow(comp)
 			tagsFld := p.Field("manager", "Manager", "tags")
